@@ -3,6 +3,7 @@
 //   --out FILE --scen "S" | --scenfile FILE [--first I]   scenarios (one per line in the file)
 //   --random N --seed S [--pct D] [--maxsteps M] [--notimeout] [--unfixed]
 // scenario:  mult=1;sets=ts.1.0,ctsL.4.0,ctsH.1.1;throws=2,5;d1=newpool2,new1,sched1.3,...;d2=...;b3=new2,...
+//   hold=TpPushRing  (directed: d1 parks at its first point of that site until d2's first resize() has returned)
 //   sets: kind.stealingLoadMultiplier.parentCascade   (ts | ctsL = kLightweight | ctsH = kHeavy)
 //   dN = program of driver thread dN, bK = program run inside the body of task K
 //   ops: newpoolN delpool resizeN newS schedS.K schedskipS.K schedfqS.K bulkS.K.N bulkfqS.K.N waitS trywaitS.N
@@ -38,6 +39,7 @@ struct Scenario {
   std::map<int, std::vector<Op>> bodies;
   std::set<int> throws;
   int nk = 0, maxw = 0;
+  std::string hold; // directed scenarios: d1 is held at its first point of this site until d2's first resize returned
   std::string text;
 };
 
@@ -96,7 +98,9 @@ static Scenario parseScenario(const std::string& text) {
     if (eq == std::string::npos)
       continue;
     std::string key = part.substr(0, eq), val = part.substr(eq + 1);
-    if (key == "mult") {
+    if (key == "hold") {
+      sc.hold = val;
+    } else if (key == "mult") {
       sc.mult = atoi(val.c_str());
     } else if (key == "sets") {
       for (auto& s : drv::split(val, ',')) {
@@ -201,7 +205,22 @@ struct World {
   dispenso::ThreadPool* pool = nullptr;
   std::vector<SetBox> sets;
   std::atomic<int> done{0};
+  std::atomic<int> resizes{0}; // resize() calls that have returned
+  std::atomic<int> held{0};
 };
+
+// Site filter of the run.  Directed scenarios (hold=<site>): the first time driver thread d1 reaches that site it
+// first parks at the gate "GateHold" until another thread's resize() has returned - a deterministic way to put a whole
+// resize between two steps of a producer (the gate is a driver-level event: a stuttering step for the specification).
+static World* g_world = nullptr;
+static bool siteFilter(const char* s) {
+  World* w = g_world;
+  if (w && !w->sc->hold.empty() && !w->held.load() && w->sc->hold == s && ctl::selfName() == "d1") {
+    w->held.store(1);
+    ctl::gate("GateHold", [w]() { return w->resizes.load() >= 1; });
+  }
+  return poolproj::siteFilter(s);
+}
 
 static void doOp(World* w, const Op& o);
 
@@ -255,6 +274,7 @@ static void doOp(World* w, const Op& o) {
       w->pool = nullptr;
     } else if (o.op == "resize") {
       w->pool->resize(o.n);
+      w->resizes.fetch_add(1);
     } else if (o.op == "new") {
       auto& b = w->sets[(size_t)o.s];
       auto& c = sc.sets[(size_t)o.s - 1];
@@ -336,7 +356,8 @@ static ctl::RunResult execute(const Scenario& sc, ctl::RunOptions opts, ctl::Tra
   w->sets = std::vector<SetBox>(sc.sets.size() + 1);
   tr.line(resetLine(sc, tag, fixed));
   ctl::Controller c(tr);
-  ctl::setSiteFilter(poolproj::siteFilter);
+  g_world = w;
+  ctl::setSiteFilter(siteFilter);
   c.setProjection([w](Json& j) {
     if (w->pool) {
       auto& p = *w->pool;
@@ -389,6 +410,7 @@ static ctl::RunResult execute(const Scenario& sc, ctl::RunOptions opts, ctl::Tra
     j.kv("e", std::string("End"));
     j.endObj();
     tr.line(j.s);
+    g_world = nullptr;
     delete w->pool;
     delete w;
   }
